@@ -65,7 +65,7 @@ fn hist_json(lists: &[Vec<Det>], h: &[Call]) -> serde_json::Value {
 pub fn run_c04(tier: Tier) -> Report {
     let rep = Report::new("C04", tier);
     let ls = Arc::new(tie_free_lists());
-    rep.set_rule("every history of depth <= D (quick 4, thorough 5) over predict(scene in {0,1,2}, one of 7 tie-free detection lists occupying the same image region in every scene), on Sort / VisualSort / BatchSort / BatchVisualSort x IoU / Mahalanobis; differential oracle: for every scene the records of the interleaved run equal those of a fresh tracker fed only that scene's calls (boxes, epochs, lengths, voting type bit for bit, ids up to an incrementally built bijection), and no record carries an id first issued in another scene. For the batch trackers additionally every history of depth <= 2 (3 thorough) over single-scene and TWO-SCENE batches (5 lists incl. mutual occlusion and a jump beyond positional reach) with own-area thresholds on / off: every scene of a shared batch must equal the run of a fresh tracker fed that scene alone. Non-trivial = history touching at least two scenes.");
+    rep.set_rule("every history of depth <= D (quick 4, thorough 5) over predict(scene in {0,1,2}, one of 7 tie-free detection lists occupying the same image region in every scene), on Sort / VisualSort / BatchSort / BatchVisualSort x IoU / Mahalanobis; differential oracle: for every scene the records of the interleaved run equal those of a fresh tracker fed only that scene's calls (boxes, epochs, lengths, voting type bit for bit, ids up to an incrementally built bijection), and no record carries an id first issued in another scene. For the batch trackers additionally every history of depth <= 2 (3 thorough) over single-scene and TWO-SCENE batches (5 lists incl. mutual occlusion and a jump beyond positional reach) with own-area thresholds on / off: every scene of a shared batch must equal the run of a fresh tracker fed that scene alone. Plus an expiry family: max idle 0, the store-wide collection of expired tracks every 1 / 2 / 3 calls, every history of depth <= 5 (thorough 6) over 2 scenes x 3 lists on all four trackers, same differential oracle. Non-trivial = history touching at least two scenes.");
     rep.assume("tie-free inputs (no exact duplicates): both runs perform the same arithmetic per scene if isolation holds; sequential use under the default schedule");
     let depth = tier.pick(4usize, 5usize);
     let nl = ls.len();
@@ -157,8 +157,81 @@ pub fn run_c04(tier: Tier) -> Report {
     rep.add(total, total * 2, total * 2, 0);
     rep.distinct_count(nontrivial);
     run_multi_scene_batches(&rep, tier);
+    run_expiry_family(&rep, tier);
     rep.sample(json!({"history":[[0,2],[1,2],[0,1],[1,5]],"meaning":"(scene, list index); scene 0 and 1 see the same boxes"}));
     rep
+}
+
+
+/// Expiry family: tracks expire at once (max_idle 0) and the store-wide collection of expired tracks
+/// runs every 1 / 2 / 3 calls, so calls on another scene shift the moment at which a scene's expired
+/// track is physically removed; what a scene's re-appearing object is attached to must not depend on it.
+fn run_expiry_family(rep: &Report, tier: Tier) {
+    let ls: Arc<Vec<Vec<Det>>> = Arc::new(vec![vec![p().feat(&fa(), 0.9)], vec![q().shift(3.0, 1.0).feat(&fb(), 0.9)], vec![p1().feat(&fa1(), 0.9), q()]]);
+    let alpha: Vec<Call> = [0u64, 1].iter().flat_map(|s| (0..ls.len()).map(move |l| (*s, l))).collect();
+    let depth = tier.pick(5usize, 6usize);
+    let mut hs: Vec<Vec<usize>> = vec![];
+    for len in 3..=depth {
+        hs.extend(words(alpha.len(), len).into_iter().filter(|w| alpha[w[0]].0 == 0 && w.iter().any(|a| alpha[*a].0 != 0)));
+    }
+    let hs = Arc::new(hs);
+    let mut total = 0u64;
+    for kind in Kind::all() {
+        for period in [1usize, 2, 3] {
+            if rep.out_of_time() {
+                rep.cap_hit("wall budget reached in the expiry family");
+                return;
+            }
+            let mut cfg = TrkCfg::new(kind);
+            cfg.max_idle = 0;
+            cfg.vis.min_track_len = 1;
+            let chunk = 32usize;
+            let nchunks = (hs.len() + chunk - 1) / chunk;
+            let (hs2, ls2, cfg2, alpha2) = (hs.clone(), ls.clone(), cfg.clone(), alpha.clone());
+            let run = move |cfg: &TrkCfg, ls: &[Vec<Det>], h: &[Call]| -> Vec<Vec<Rec>> {
+                let mut t = Guarded::new(AnyTrk::new(cfg));
+                t.set_auto_waste(period);
+                h.iter().map(|(s, l)| t.predict(*s, &ls[*l])).collect()
+            };
+            let outs = run_jobs(nchunks, move |ci| {
+                let mut viol: Vec<(Vec<Call>, String, String)> = vec![];
+                let mut cache: BTreeMap<Vec<Call>, Vec<Vec<Rec>>> = BTreeMap::new();
+                for w in &hs2[ci * chunk..((ci + 1) * chunk).min(hs2.len())] {
+                    let h: Vec<Call> = w.iter().map(|a| alpha2[*a]).collect();
+                    let full = run(&cfg2, &ls2, &h);
+                    for s in [0u64, 1] {
+                        let proj: Vec<Call> = h.iter().filter(|c| c.0 == s).cloned().collect();
+                        if proj.is_empty() {
+                            continue;
+                        }
+                        let solo = cache.entry(proj.clone()).or_insert_with(|| run(&cfg2, &ls2, &proj)).clone();
+                        let inter: Vec<&Vec<Rec>> = h.iter().zip(full.iter()).filter(|(c, _)| c.0 == s).map(|(_, r)| r).collect();
+                        let (mut m, mut rm) = (BTreeMap::new(), BTreeMap::new());
+                        for (k, (a, b)) in inter.iter().zip(solo.iter()).enumerate() {
+                            if let Err(e) = same_records(a, b, &mut m, &mut rm, false) {
+                                viol.push((h.clone(), "isolation/scene-differs-from-solo-run/expiry".into(), format!("scene {s}, its call #{k}: {e}")));
+                                break;
+                            }
+                        }
+                    }
+                }
+                viol
+            });
+            for o in outs {
+                match o {
+                    Ok(v) => {
+                        for (h, key, what) in v {
+                            rep.violation(Violation { key, what, replay: json!({"config":cfg.json(),"auto_waste_period":period,"history":hist_json(&ls, &h)}) });
+                        }
+                    }
+                    Err(e) => rep.violation(Violation { key: format!("{}/panic-or-deadlock", cfg.kind.name()), what: e.chars().take(300).collect(), replay: json!({"config":cfg.json(),"auto_waste_period":period}) }),
+                }
+            }
+            total += hs.len() as u64;
+        }
+    }
+    rep.add(total, total * 2, total * 2, 0);
+    rep.extra("expiry_family", json!({"histories_per_configuration":hs.len(),"configurations":12,"depth":depth}));
 }
 
 /// C05 (1): transcripts for shard counts 2..8 equal the 1-shard transcript
